@@ -31,7 +31,7 @@
 
   Amounts are unbounded integers; `uint64(Fee.Gas)` is the explicit wrap `gasU`.
   Not modelled (stated as limits in scripts/props.py): contract storage / code bytes / logs,
-  precompile recipients, contracts that CREATE, `deleted` flags (objects are deleted only inside
+  precompile recipients, contracts that CREATE, payloads that fail to unmarshal, `deleted` flags (objects are deleted only inside
   Finalise, which drops the whole cache), the insertion of *unmodified* loaded objects into the
   live cache by pure reads (an unmodified object equals what the keeper returns and is never
   written back).
@@ -95,9 +95,12 @@ def nativeBalance (w : World) (a : Addr) : Int := bal w.bal a
 def setAccount (w : World) (a : Addr) (o : Obj) : World :=
   { w with keeper := upsert w.keeper a ⟨o.nonce, o.code⟩, bal := setBal w.bal a o.bal }
 
-/-- `RemoveAccount`: deletes the keeper record ONLY — the balance record stays (S8) -/
-def removeAccount (w : World) (a : Addr) : World :=
-  { w with keeper := aerase w.keeper a }
+/-- `RemoveAccount` (as repaired): deletes the keeper record and, because the coins live in the
+    balance store, writes the removed account's coins there when the stored amount differs (zero
+    after `Suicide`; nothing is written for an empty touched object whose record is already 0) -/
+def removeAccount (w : World) (a : Addr) (o : Obj) : World :=
+  { w with keeper := aerase w.keeper a,
+           bal := if bal w.bal a = o.bal then w.bal else setBal w.bal a o.bal }
 
 /-! ## CommitStateDB -/
 
@@ -188,7 +191,7 @@ def markAll (s : St) (l : List Addr) : St := l.foldl markDirty s
 
 /-- one entry of `Finalise`'s loop over `stateObjects` -/
 def finaliseObj (w : World) (p : Addr × Obj) : World :=
-  if p.2.suicided || (p.2.dirty && isEmpty p.2) then removeAccount w p.1
+  if p.2.suicided || (p.2.dirty && isEmpty p.2) then removeAccount w p.1 p.2
   else if p.2.dirty then setAccount w p.1 p.2
   else w
 
@@ -246,12 +249,13 @@ structure Tx where
   size     : Nat              -- `ethTx.Size()`
   memo     : Option Nat       -- `strconv.ParseUint(memo)`; `none` = does not parse
   sigs     : Nat              -- number of signatures
-  sigOk    : Bool             -- the signature field holds 65 bytes (otherwise `WithSignature` PANICS)
+  sigOk    : Bool             -- the signature field holds 65 bytes
   chainOk  : Bool             -- payload chain id = the signer's chain id
   senderOk : Bool             -- the recovered address equals `From`
   feeCurOk : Bool             -- fee currency = the fee option's currency
   amtCurOk : Bool             -- amount currency is registered and is OLT
   addrOk   : Bool             -- `From.Err() == nil ∧ (To == nil ∨ To.Err() == nil)`
+  chainNil : Bool             -- the payload carries no chain id
   deriving DecidableEq, Repr
 
 structure Env where
@@ -277,7 +281,7 @@ def simulationBlockGasLimit : Nat := 100000000
 def txMaxSize : Nat := 131072
 
 inductive VErr where
-  | notEnabled | sigCount | sigPanic | chainId | sender | feeCurrency | feePrice | currency | address
+  | notEnabled | sigCount | sigBad | chainId | sender | feeCurrency | feePrice | currency | address
   | oversized | negative | gasLimit | nonceLow | funds | intrinsic | memoParse | memoNonce
   deriving DecidableEq, Repr
 
@@ -287,7 +291,8 @@ def validate (env : Env) (w : World) (tx : Tx) : Option VErr :=
   if !env.enabled then some .notEnabled
   -- validateSigner
   else if tx.sigs ≠ 1 then some .sigCount
-  else if !tx.sigOk then some .sigPanic        -- go-ethereum `decodeSignature` panics (C18)
+  else if tx.chainNil then some .chainId        -- checked before the pointer is used
+  else if !tx.sigOk then some .sigBad           -- checked before `WithSignature` (which would panic)
   else if !tx.chainOk then some .chainId
   else if !tx.senderOk then some .sender
   -- ValidateFee
@@ -379,6 +384,14 @@ def runVm (env : Env) (sb : St) (tx : Tx) (vm : VmOut) : Option (St × Nat × Bo
   | some to => evmCall (setNonce sb tx.sender (evmNonce sb tx.sender + 1)) tx to
       (gasU tx - intrinsicGas tx.nz tx.z (isCreate tx)) vm
 
+/-- the state the interpreter is handed when code runs: gas bought, nonce bumped, missing recipient
+    / new contract created, top-level value transferred -/
+def vmInput (env : Env) (s : St) (tx : Tx) : St :=
+  let sb := subBalance s tx.sender ((gasU tx : Int) * tx.price)
+  match tx.to with
+  | none => createPrep (setNonce sb tx.sender (evmNonce sb tx.sender + 1)) tx env.newAddr
+  | some to => transfer (callPrep (setNonce sb tx.sender (evmNonce sb tx.sender + 1)) to) tx.sender to tx.value
+
 /-- `st.gas` after `refundGas`: what the run left plus the capped refund. The refund counter is
     journaled, so after a failed run it is what the run left (0). -/
 def gasFinal (tx : Tx) (vm : VmOut) (gasLeft : Nat) : Nat :=
@@ -422,7 +435,7 @@ structure Resp where
     the persisted records are those from before; the object cache is empty after `Finalise`. -/
 def deliverOlvm (env : Env) (s : St) (tx : Tx) (vm : VmOut) : St × Resp :=
   match validate env s.w tx with
-  | some e => if e = .sigPanic then (s, ⟨99, 0, 0, .panic⟩) else (s, ⟨1, 0, 0, .invalid e⟩)
+  | some e => (s, ⟨1, 0, 0, .invalid e⟩)
   | none =>
     match transitionDb env s tx vm with
     | none => (s, ⟨99, 0, 0, .panic⟩)
@@ -442,7 +455,7 @@ def deliverOlvm (env : Env) (s : St) (tx : Tx) (vm : VmOut) : St × Resp :=
     `SkipFee` -/
 def checkOlvm (env : Env) (s : St) (tx : Tx) : St × Nat :=
   match validate env s.w tx with
-  | some e => (s, if e = .sigPanic then 99 else 1)
+  | some _ => (s, 1)
   | none => (s, 0)
 
 /-! ## histories -/
@@ -470,6 +483,15 @@ def effSum : List Eff → Int
   | .sub _ n :: t => -n + effSum t
   | .add _ n :: t => n + effSum t
   | .suicide _ :: t => effSum t
+
+/-- net change of the sum of all working balances caused by the interpreter's calls when they are
+    applied from state `s`: an inner transfer is a debit and an equal credit; SELFDESTRUCT credits the
+    beneficiary and then `Suicide` clears whatever the account holds at that moment -/
+def vmNet (s : St) : List Eff → Int
+  | [] => 0
+  | .sub a n :: t => -n + vmNet (subBalance s a n) t
+  | .add a n :: t => n + vmNet (addBalance s a n) t
+  | .suicide a :: t => -(evmBalance s a) + vmNet (suicide s a) t
 
 def noSuicide : List Eff → Bool
   | [] => true
